@@ -234,3 +234,35 @@ def keys_after_failure(what: int, sb: str) -> int:
     if val[0] != "ok":
         return 0
     return 2
+
+
+
+@harness("C09", lemma="escapes-and-prefix-names", cubes={"shape": [0, 1, 2, 3]}, pre=["len(sb) <= 1"], example=dict(shape=0, sb="w", pn=True),
+         timeout=300,
+         bounds="a referenced option value that itself contains escaped braces ('id=\\{n\\}'), referenced as the whole template, "
+                "embedded in other text, and transitively; an option n present or absent; keys whose names are string prefixes of "
+                "one another (A / AB, S.X / S.XY) read by one template",
+         what="escaped braces of a referenced value stay literal however the value is referenced (no key named by them is read); "
+              "keys() and explain() list every key read, also when one key name is a prefix of another")
+def escapes_and_prefix_names(shape: int, sb: str, pn: bool) -> int:
+    if not plain(sb):
+        return 1
+    o = {"PAT": "id=\\{n\\}", "NAME": sb, "ALIAS": "{PAT}", "A": "a", "AB": "ab", "S": {"X": "x", "XY": "xy"}}
+    if pn:
+        o["n"] = 7
+    texts = ["{PAT}", "{NAME}: {PAT}", "<{ALIAS}>", "{A}-{AB}-{S.X}-{S.XY}"]
+    text = texts[shape]
+    t = Template(text)
+    got = outcome(lambda: t(o))
+    keys = outcome(lambda: t.keys(o))
+    ex = outcome(lambda: t.explain(o))
+    reads = []
+    exp = ref_outcome(lambda: str(ref_resolve(text, o, reads)))
+    note("text", text, "options", o, "got", got, "expected", exp, "keys", keys)
+    if got != exp:
+        return 0
+    if keys[0] != "ok" or ex[0] != "ok" or not set(reads) <= keys[1] or not set(reads) <= ex[1]:
+        return 0
+    if "n" in keys[1]:
+        return 0
+    return 2
